@@ -215,6 +215,9 @@ func hostPieces(phone string) map[string]string {
 	c66 := make([]byte, 49)
 	c66[40] = 1
 	fr("0200/vendor-66", th(0x0200, false, 94), append(v66, c66...))
+	// a 2019 authentication whose code length byte makes uint8 index arithmetic wrap (needs a 256+ byte body)
+	big := append([]byte{0xDC}, bytes.Repeat([]byte{0x41}, 300)...)
+	fr("0102/19/authlen-220", th(0x0102, true, 98), big)
 	// framing noise
 	hb := hbFrame(false, phone, 95)
 	m["half-frame"] = hx2(hb[:len(hb)/2])
